@@ -1346,3 +1346,157 @@ func mapLiteralKeysUsed(c *core.Ctx, fn *core.Func) map[string]bool {
 	})
 	return out
 }
+
+// resolveText renders an expression with every local variable that has a
+// single reaching definition replaced by (the rendering of) that definition,
+// and every field of a local struct resolved to the expression that gave it
+// its value (a field assignment, a field of the literal the struct was built
+// from, or the same field of the value it was copied from).  Two expressions
+// that denote the same value through different locals render alike
+// (first.minKey and children[0].minKey with first := children[0]).
+func resolveText(g *core.Graph, at *core.V, e ast.Expr, depth int) string {
+	info := g.Info
+	if e == nil {
+		return ""
+	}
+	if depth <= 0 {
+		return strings.ReplaceAll(core.ExprStr(e), " ", "")
+	}
+	switch x := ast.Unparen(e).(type) {
+	case *ast.Ident:
+		if v, ok := info.ObjectOf(x).(*types.Var); ok && !v.IsField() && v.Pkg() != nil && v.Parent() != v.Pkg().Scope() {
+			cs := valueCases(g, at, x, 1)
+			if len(cs) == 1 && cs[0].V != nil && cs[0].V != at && cs[0].Expr != ast.Expr(x) {
+				if _, isCall := ast.Unparen(cs[0].Expr).(*ast.CallExpr); !isCall {
+					return resolveText(g, cs[0].V, cs[0].Expr, depth-1)
+				}
+				if core.CalleeKey(info, ast.Unparen(cs[0].Expr).(*ast.CallExpr)) == "builtin.len" {
+					return resolveText(g, cs[0].V, cs[0].Expr, depth-1)
+				}
+			}
+		}
+		return x.Name
+	case *ast.SelectorExpr:
+		if s := info.Selections[x]; s != nil && s.Kind() == types.FieldVal {
+			return fieldText(g, at, x.X, x.Sel.Name, depth)
+		}
+		return strings.ReplaceAll(core.ExprStr(x), " ", "")
+	case *ast.IndexExpr:
+		return resolveText(g, at, x.X, depth) + "[" + resolveText(g, at, x.Index, depth) + "]"
+	case *ast.SliceExpr:
+		s := resolveText(g, at, x.X, depth) + "["
+		if x.Low != nil {
+			s += resolveText(g, at, x.Low, depth)
+		}
+		s += ":"
+		if x.High != nil {
+			s += resolveText(g, at, x.High, depth)
+		}
+		return s + "]"
+	case *ast.CallExpr:
+		var args []string
+		for _, a := range x.Args {
+			args = append(args, resolveText(g, at, a, depth))
+		}
+		return strings.ReplaceAll(core.ExprStr(x.Fun), " ", "") + "(" + strings.Join(args, ",") + ")"
+	case *ast.BinaryExpr:
+		return resolveText(g, at, x.X, depth) + x.Op.String() + resolveText(g, at, x.Y, depth)
+	case *ast.StarExpr:
+		return "*" + resolveText(g, at, x.X, depth)
+	case *ast.UnaryExpr:
+		return x.Op.String() + resolveText(g, at, x.X, depth)
+	}
+	return strings.ReplaceAll(core.ExprStr(e), " ", "")
+}
+
+// fieldText renders base.field (see resolveText).
+func fieldText(g *core.Graph, at *core.V, base ast.Expr, field string, depth int) string {
+	info := g.Info
+	b := ast.Unparen(base)
+	if u, ok := b.(*ast.UnaryExpr); ok && u.Op == token.AND {
+		b = ast.Unparen(u.X)
+	}
+	if cl, ok := b.(*ast.CompositeLit); ok {
+		if v := literalField(info, cl, field); v != nil {
+			return resolveText(g, at, v, depth-1)
+		}
+		return "<zero>"
+	}
+	id, ok := b.(*ast.Ident)
+	if !ok {
+		return resolveText(g, at, b, depth) + "." + field
+	}
+	obj, isVar := info.ObjectOf(id).(*types.Var)
+	if !isVar || obj.IsField() || obj.Pkg() == nil || obj.Parent() == obj.Pkg().Scope() {
+		return id.Name + "." + field
+	}
+	// assignments to the field that every path to `at` passes; the last of them
+	var best *core.V
+	var bestExpr ast.Expr
+	incdec := ""
+	for _, v := range g.Vs {
+		switch s := v.AST.(type) {
+		case *ast.AssignStmt:
+			if len(s.Lhs) != len(s.Rhs) {
+				continue
+			}
+			for i, l := range s.Lhs {
+				sel, ok := ast.Unparen(l).(*ast.SelectorExpr)
+				if !ok || sel.Sel.Name != field || core.ObjOf(info, sel.X) != obj || s.Tok != token.ASSIGN {
+					continue
+				}
+				if v != at && g.Dominates(v, at) && (best == nil || g.Dominates(best, v)) {
+					best, bestExpr = v, s.Rhs[i]
+				}
+			}
+		case *ast.IncDecStmt:
+			if sel, ok := ast.Unparen(s.X).(*ast.SelectorExpr); ok && sel.Sel.Name == field && core.ObjOf(info, sel.X) == obj && g.Dominates(v, at) {
+				if s.Tok == token.INC {
+					incdec += "+1"
+				} else {
+					incdec += "-1"
+				}
+			}
+		}
+	}
+	if best != nil {
+		return resolveText(g, best, bestExpr, depth-1) + incdec
+	}
+	// the value the whole variable was given
+	cs := valueCases(g, at, id, 1)
+	if len(cs) == 1 && cs[0].V != nil && cs[0].V != at && cs[0].Expr != ast.Expr(id) {
+		x := ast.Unparen(cs[0].Expr)
+		switch y := x.(type) {
+		case *ast.StarExpr:
+			return fieldText(g, cs[0].V, y.X, field, depth-1) + incdec
+		case *ast.CallExpr:
+			return id.Name + "." + field + incdec
+		default:
+			return fieldText(g, cs[0].V, x, field, depth-1) + incdec
+		}
+	}
+	return id.Name + "." + field + incdec
+}
+
+// literalField returns the value of a field in a struct literal (keyed or
+// positional), or nil.
+func literalField(info *types.Info, cl *ast.CompositeLit, field string) ast.Expr {
+	t := info.TypeOf(cl)
+	if t == nil {
+		return nil
+	}
+	st, ok := t.Underlying().(*types.Struct)
+	if !ok {
+		return nil
+	}
+	for i, el := range cl.Elts {
+		if kv, isKV := el.(*ast.KeyValueExpr); isKV {
+			if k, isK := kv.Key.(*ast.Ident); isK && k.Name == field {
+				return kv.Value
+			}
+		} else if i < st.NumFields() && st.Field(i).Name() == field {
+			return el
+		}
+	}
+	return nil
+}
